@@ -183,8 +183,16 @@ def run_check(pid, shard_fn, params, tier, seed, min_evaluations, rule, level="e
     if nshards == 1:
         results = [_shard_entry(ctxs[0])]
     else:
-        with mp.get_context("fork").Pool(min(nshards, NCPU)) as pool:
-            results = pool.map(_shard_entry, ctxs, chunksize=1)
+        # a shard process that dies (e.g. killed for memory) must not hang the run: it becomes a harness error
+        import concurrent.futures as cf
+        results = []
+        with cf.ProcessPoolExecutor(max_workers=min(nshards, NCPU), mp_context=mp.get_context("fork")) as ex:
+            futs = [ex.submit(_shard_entry, c) for c in ctxs]
+            for k, f in enumerate(futs):
+                try:
+                    results.append(f.result())
+                except Exception as e:  # BrokenProcessPool and friends
+                    results.append({"harness_error": "shard %d died: %r" % (k, e)})
     merged = {"evaluations": 0, "nontrivial": set(), "discards": {}, "inconclusive": {}, "failures": [], "samples": [], "stats": {}}
     harness_errors = []
     for r in results:
@@ -275,3 +283,21 @@ def run_check(pid, shard_fn, params, tier, seed, min_evaluations, rule, level="e
         print("INCONCLUSIVE: only %d evaluations (minimum %d)" % (merged["evaluations"], min_evaluations))
         return EXIT_INCONCLUSIVE
     return EXIT_OK
+
+
+def program_witness(wcase, entry):
+    """Generic pinned witness: a program with the outcome/stdout the property prescribes.
+    Returns True while the real code still deviates (the finding is still open)."""
+    from .worker import Worker, outcome
+    w = Worker()
+    try:
+        rep = w.run(wcase["src"], stdin=wcase.get("stdin", ""), files=wcase.get("files"))
+    finally:
+        w.close()
+    exp = wcase["expect"]
+    oc = outcome(rep)
+    if "outcome" in exp and list(oc)[: len(exp["outcome"])] != list(exp["outcome"]):
+        return True
+    if "stdout" in exp and rep.get("run", {}).get("stdout") != exp["stdout"]:
+        return True
+    return False
